@@ -67,7 +67,7 @@ WRAPPED = ["malloc", "mmap", "mremap", "munmap", "open", "fstat", "read", "fopen
 # libc functions the library may call without going through an interposer (pure / diagnostics / release of resources)
 ALLOWED = {"free", "close", "fprintf", "printf", "puts", "putchar", "perror", "strncpy", "strlen", "strcmp", "strtoul", "strtok_r", "strstr", "strncmp",
            "strchr", "strcasecmp", "__ctype_tolower_loc", "stderr", "stdout", "memset", "memcpy", "memmove", "strcpy", "tolower", "__errno_location", "fputs", "fputc", "__stack_chk_fail",
-           "memcmp", "strtol", "strncasecmp", "abort", "snprintf", "sprintf", "vfprintf", "strnlen", "__ctype_b_loc", "__ctype_toupper_loc", "toupper", "isdigit", "isalpha", "strtoull", "strtoll", "atoi", "lseek", "fileno", "getpagesize", "sysconf", "memchr", "strrchr", "strdup", "feof", "ferror", "fseek", "ftell", "rewind", "unlink", "remove"}
+           "memcmp", "strtol", "strncasecmp", "abort", "snprintf", "sprintf", "vfprintf", "strnlen", "__ctype_b_loc", "__ctype_toupper_loc", "toupper", "isdigit", "isalpha", "strtoull", "strtoll", "atoi", "lseek", "fileno", "getpagesize", "sysconf", "memchr", "strrchr", "strdup", "feof", "ferror", "fseek", "ftell", "rewind", "unlink", "remove", "strcasestr", "strpbrk", "strspn", "strcspn", "strtok", "strcat", "strncat", "strtod", "qsort", "bsearch", "isspace", "isxdigit", "isalnum", "isprint", "isupper", "islower", "setvbuf", "strerror", "getenv", "memmem", "stpcpy", "strndup", "atol", "labs", "abs"}
 
 
 def build_lib_fi():
@@ -83,6 +83,7 @@ def build_lib_fi():
         os.unlink(o)
     redef = " ".join("--redefine-sym %s=alw_%s" % (s, s) for s in WRAPPED)
     defined = set()
+    unknown = set()
     objs = lib_objs("asan")
     for o in objs:
         for line in sh(f"nm --defined-only {o}").splitlines():
@@ -96,11 +97,19 @@ def build_lib_fi():
             sym = line.split()[-1]
             if sym in defined or sym in WRAPPED or sym in ALLOWED or sym.startswith(("__asan", "__ubsan", "__sanitizer", "__sancov")):
                 continue
-            sys.stderr.write("BUILD FAILED: library object %s calls '%s', which is neither interposed for fault injection nor on the allow-list of pure functions (driver/build.py)\n" % (os.path.basename(o), sym))
-            raise SystemExit(2)
+            # not fatal for the build: only the fault enumeration (C17) depends on every resource call being interposed and
+            # refuses to run (inconclusive) when this list is not empty - see run.py
+            unknown.add(sym)
     sh(f"clang -O1 -g {SAN} -c {os.path.join(ROOT, 'engine', 'fault', 'wrap.c')} -o {os.path.join(d, 'zz_wrap.o')}")
+    open(os.path.join(d, "uninterposed"), "w").write("\n".join(sorted(unknown)))
     open(stamp, "w").write(dg)
     return d
+
+
+def uninterposed():
+    """libc symbols the library references that are neither interposed nor known to be pure (empty on the pinned tree)"""
+    p = os.path.join(BUILD, "asanfi", "uninterposed")
+    return [l for l in open(p).read().split()] if os.path.exists(p) else []
 
 
 def lib_objs(flavour):
